@@ -203,6 +203,7 @@ package slog
 //@   requires s != nil
 //@   assigns s.attrs, s.attrs[:]
 //@   ensures [C10.set] len(s.attrs) == old(len(s.attrs)) + len(attrs) && forall(j, 0, old(len(s.attrs)), s.attrs[j] == old(s.attrs[j])) && forall(j, 0, len(attrs), s.attrs[old(len(s.attrs))+j] == old(attrs[j]))
+//@   ensures [C10.own-array] implies(old(cap(s.attrs)) == 0 && len(attrs) > 0, fresh(s.attrs))
 //@   ensures [C10.ret] result == s
 
 //@ func (*Entry).SetAttrs1
@@ -210,6 +211,7 @@ package slog
 //@   requires s != nil
 //@   assigns s.attrs, s.attrs[:]
 //@   ensures [C10.set] len(s.attrs) == old(len(s.attrs)) + len(attrs) && forall(j, 0, old(len(s.attrs)), s.attrs[j] == old(s.attrs[j])) && forall(j, 0, len(attrs), s.attrs[old(len(s.attrs))+j] == old(attrs[j]))
+//@   ensures [C10.own-array] implies(old(cap(s.attrs)) == 0 && len(attrs) > 0, fresh(s.attrs))
 //@   ensures [C10.ret] result == s
 
 //@ func (*Entry).SetContextKeys
@@ -217,6 +219,7 @@ package slog
 //@   requires s != nil
 //@   assigns s.contextKeys, s.contextKeys[:]
 //@   ensures [C10.set] len(s.contextKeys) == old(len(s.contextKeys)) + len(keys) && forall(j, 0, old(len(s.contextKeys)), s.contextKeys[j] == old(s.contextKeys[j])) && forall(j, 0, len(keys), s.contextKeys[old(len(s.contextKeys))+j] == old(keys[j]))
+//@   ensures [C10.own-array] implies(old(cap(s.contextKeys)) == 0 && len(keys) > 0, fresh(s.contextKeys))
 //@   ensures [C10.ret] result == s
 
 //@ func (*Entry).Set
